@@ -59,15 +59,13 @@ pub(crate) fn format_date_part(chars: &str, days: i32) -> String {
         },
         'y' => match chars.len() {
             2 => {
-                let mut year = days_to_date(days).0;
-                let year_string = year.to_string();
-
-                if year_string.len() > 2 {
-                    let last_two = &year_string[year_string.len() - 2..];
-                    // Using unwrap because it's safe to assume that this string can be parsed
-                    year = last_two.parse::<i32>().unwrap();
-                }
-                zero_padded_i(year, 2)
+                // Two-digit year: the sign of the year followed by its last two digits
+                let year = days_to_date(days).0;
+                format!(
+                    "{}{}",
+                    if year.is_negative() { "-" } else { "" },
+                    zero_padded(year.unsigned_abs() % 100, 2)
+                )
             }
             _ => zero_padded_i(days_to_date(days).0, chars.len()),
         },
